@@ -20,7 +20,7 @@ RULE = ("plan = frame with 1..8 rows (1..25 thorough) and 1..4 columns over bool
         "present. Distinct = plan hash.")
 CASES = {"quick": 1200, "thorough": 6000}
 
-KINDS = ["b", "i", "f", "s", "s", "d", "t", "ob"]
+KINDS = ["b", "i", "f", "s", "s", "d", "t", "ob", "obn"]
 SENTINELS = {"", "NaT", "nan", "NaN", "None"}
 
 
@@ -100,7 +100,7 @@ def _compare_back(what, back, src, kinds, has_value):
 
 
 _PHASE = [""]
-FILL = {"f": 1.5, "s": "zz", "u": "z", "d": "2001-02-03", "t": "2001-02-03T04:05:06", "ob": False, "i": 7, "b": True}
+FILL = {"f": 1.5, "s": "zz", "u": "z", "d": "2001-02-03", "t": "2001-02-03T04:05:06", "ob": False, "obn": False, "i": 7, "b": True}
 
 
 def check(plan, ctx):
